@@ -393,6 +393,9 @@ def classes_of(e: E, parent: E | None, i: int, ctx: str) -> list[str]:
 		out.append('flat:dict-get')
 	if _unsigned_call(e) and not (parent is not None and parent.k == 'call' and parent.val == 'int'):
 		out.append('unsigned:len')
+	if e.k == 'call' and e.val in ('int', 'float') and len(e.kids) == 1 and e.kids[0].k == 'var' and not e.kids[0].paren \
+			and parent is not None and parent.k == 'call' and parent.val in ('int', 'float'):
+		out.append('cast:nested')
 	return out
 
 
@@ -416,6 +419,8 @@ CLASS_WHAT = {
 	'flat:len-arg': '`len(x + y)` is emitted as `x + y.size()`',
 	'flat:range-arg': '`range(a & b)` / `range(x if c else y)` is emitted as `i < a & b` / `i < c ? x : y`',
 	'flat:dict-get': '`d.get(k, v) + 1` is emitted as the bare conditional `d.contains(k) ? d[k] : v + 1`',
+	'cast:nested': '`float(int(float(a))) - 1` is emitted as `(float((int((float(a)))))) - 1`: `(int((float(a))))` reads as a type-id (function type), '
+		'so a following `-`/`+`/`*`/`&` operand makes it a C-style cast: g++ rejects ("invalid cast to function type")',
 	'unsigned:len': '`len(x)` / `s.find(..)` is emitted as the unsigned `.size()` / `.find()`: comparisons, min/max, division against negative values differ',
 }
 
@@ -447,6 +452,10 @@ def repaired(p: Prog, keep: set[str]) -> Prog:
 				for j, o in enumerate(e.op):
 					parts.append(E('cmp', 'bool', [copy.deepcopy(e.kids[j]), copy.deepcopy(e.kids[j + 1])], op=[o]))
 				e.k, e.op, e.kids = 'bool', 'and', parts
+			elif c == 'cast:nested':
+				v = e.kids[0]
+				zero = E('lit', v.ty, val=0.0 if v.ty == 'float' else 0, fe=0)
+				e.kids[0] = E('bin', v.ty, [v, zero], op='+', lo=v.lo, hi=v.hi, fe=v.fe)
 			elif c == 'unsigned:len':
 				inner = copy.copy(e)
 				inner.paren = False
